@@ -54,11 +54,11 @@ def units(rng, tier):
             a2, cmp2 = rng.choice(PACK)
             us.append(pack_unit(a2, C, [min(v, C) for v in cv], family="pack-dense", cmp=cmp2))
     for _ in range(10 if tier == "quick" else 100):
-        n = rng.randint(40, 150)
+        n = rng.choice([40, 64, 65, 100, 129, 150, 300])
         C = rng.choice([100, 1000])
         vals = [rng.randint(1, C) for _ in range(n)]
         for a, cmp in PART:
-            us.append(part_unit(a, rng.randint(2, 9), vals, rng, fmt=rng.choice(["list", "dict_str"]), cmp=cmp, family="large"))
+            us.append(part_unit(a, rng.choice([2, 3, 5, 9, 16, 31, 32, 33, 40, 64, 65]), vals, rng, fmt=rng.choice(["list", "dict_str"]), cmp=cmp, family="large"))
         for a, cmp in PACK + COV:
             us.append(pack_unit(a, C, vals, rng, fmt=rng.choice(["list", "dict_str"]), cmp=cmp, family="large"))
     return us
